@@ -533,7 +533,7 @@ impl Engine for SerEngine {
             b.extend(dict.as_bytes());
             b
         };
-        let raw_specials = vec![
+        let raw_specials: Vec<(Format, Vec<u8>, String)> = vec![
             (Format::Npy, vec![], "empty".to_string()),
             (Format::Npy, npy_hdr("{'descr': '<f4', 'fortran_order': False, 'shape': (4294967295,), }"), "npy shape 2^32-1".into()),
             (Format::Npy, npy_hdr("{'descr': '<f8', 'fortran_order': False, 'shape': (18446744073709551615, 2), }"), "npy shape overflow".into()),
@@ -549,6 +549,54 @@ impl Engine for SerEngine {
             (Format::Npz, b"PK\x05\x06\0\0\0\0\0\0\0\0\0\0\0\0\0\0\0\0\0\0".to_vec(), "npz empty archive".into()),
             (Format::Npz, b"PK\x05\x06\0\0\0\0\xff\xff\xff\xff\xff\xff\xff\xff\xff\xff\xff\xff\0\0".to_vec(), "npz lying central directory".into()),
         ];
+        let mut raw_specials = raw_specials;
+        // npy header dictionaries cut short at every position, with a header length field that agrees with
+        // the cut (so the fixed-size reads succeed and the dictionary parser meets the end of its input
+        // in the middle of every token), once bare and once with the customary trailing newline
+        for dict in ["{'descr': '<i4', 'fortran_order': False, 'shape': (1,), }", "{'shape': (2, 1), 'fortran_order': True, 'descr': '|u1'}"] {
+            for cut in 0..dict.len() {
+                if !dict.is_char_boundary(cut) {
+                    continue;
+                }
+                for nl in [false, true] {
+                    let mut d = dict[..cut].to_string();
+                    if nl {
+                        d.push('\n');
+                    }
+                    let mut b = npy_hdr(&d);
+                    b.extend([1u8, 0, 0, 0, 2, 0, 0, 0]);
+                    raw_specials.push((Format::Npy, b, format!("npy dict cut at {cut}{}", if nl { " +newline" } else { "" })));
+                }
+            }
+            // values replaced by shorter / other tokens
+            for (from, to) in [("False", "Fals"), ("False", "0"), ("False", ""), ("True", "Tru"), ("True", "1"), ("True", "None"), ("(1,)", "("), ("(1,)", "(1"), ("(2, 1)", "(2,"), ("'<i4'", "'<i4"), ("'|u1'", "'")] {
+                if dict.contains(from) {
+                    let mut b = npy_hdr(&dict.replacen(from, to, 1));
+                    b.extend([1u8, 0, 0, 0, 2, 0, 0, 0]);
+                    raw_specials.push((Format::Npy, b, format!("npy dict token {from:?} -> {to:?}")));
+                }
+            }
+        }
+        // archives whose member names were not produced by this writer: other letter cases of the extension,
+        // other extensions, a directory-like name — each holding a valid .npy payload next to a regular member
+        {
+            let spec = FileSpec {
+                format: Format::Npz,
+                tensors: vec![
+                    TSpec { name: "a".into(), dtype: 9, base_shape: vec![2], perm: None, step: None, seed: 1 },
+                    TSpec { name: "bb".into(), dtype: 3, base_shape: vec![1, 2], perm: None, step: None, seed: 2 },
+                ],
+            };
+            if let Ok(bytes) = reference_bytes(&spec) {
+                for variant in [&b".NPY"[..], b".Npy", b".npY", b".txt", b".np\0", b"/npy", b".NPy"] {
+                    let mut b = bytes.clone();
+                    for pos in find_all(&bytes, b"bb.npy") {
+                        b[pos + 2..pos + 6].copy_from_slice(variant);
+                    }
+                    raw_specials.push((Format::Npz, b, format!("npz member renamed to bb{}", String::from_utf8_lossy(variant))));
+                }
+            }
+        }
         let enumerated = at + (raw_specials.len() * 2) as u64;
         SerEngine {
             corpus,
@@ -725,7 +773,7 @@ impl Engine for SerEngine {
                 Ok(_) if st.budget_exceeded => Some(Violation::new(format!("C34/nonterminating/{fname}/read"), format!("read exceeded its operation budget [{}]", case.note))),
                 Ok(_) => None,
             };
-            return Outcome { violation, nontrivial: true, steps, trace_hash: 1, executions: 1 };
+            return Outcome { violation, nontrivial: true, steps, trace_hash: 1, executions: 1, ..Default::default() };
         }
 
         // fault-free reference write
@@ -873,7 +921,7 @@ impl Engine for SerEngine {
                 }
             }
         }
-        Outcome { violation, nontrivial, steps: steps.max(1), trace_hash: mix(&trace), executions: 2 }
+        Outcome { violation, nontrivial, steps: steps.max(1), trace_hash: mix(&trace), executions: 2, ..Default::default() }
     }
 
     fn shrink(&self, case: &SerCase) -> Vec<SerCase> {
